@@ -558,6 +558,57 @@ class ImplFeat(ImplViews):
             return f"{i}:composite({parts}) {cols} names {names}"
         return f"{i}:{kind} {cols}"
 
+    def cmd_fspec(self, ts):
+        """The Python twin of `JobShopModel/FeatureSpecs.lean`: every feature's documented value recomputed from the
+        instance and dispatcher.schedule.schedule alone (oracles.View), in the driver's `fspec` format."""
+        import oracles
+        I = self.instance
+        v = oracles.View(I, self.dispatcher.schedule.schedule)
+        ft = self.filter_tokens
+        now = v.now(ft)
+        ops = [op for job in I.jobs for op in job]
+        M = I.num_machines
+        un = v.unscheduled()
+        un_ids = {o.operation_id for o in un}
+        est = {}
+        for j, job in enumerate(I.jobs):
+            prev = v.job_ready[j]
+            for pos in range(v.next_pos[j], len(job)):
+                op = job[pos]
+                st = max(prev, min(v.mach_free[m] for m in op.machines))
+                est[op.operation_id] = st
+                prev = st + op.duration
+        kv = lambda pairs: " ".join(f"{k}:{val}" for k, val in pairs)  # noqa: E731
+        ints = lambda l: " ".join(str(x) for x in l)  # noqa: E731
+        estm = []
+        for m in range(M):
+            cand = [est[o.operation_id] for o in un if m in o.machines]
+            estm.append((min(cand) if cand else 0) - now)
+        estj = [(j, est[job[v.next_pos[j]].operation_id] - now) for j, job in enumerate(I.jobs) if v.next_pos[j] < len(job)]
+        ongoing = v.ongoing(ft)
+        og_ids = {x.operation.operation_id for x in ongoing}
+        completed = {i for i in v.sop if i not in og_ids}
+        parts = [
+            f"now {now}",
+            "est " + kv((o.operation_id, est[o.operation_id] - now) for o in un),
+            "estm " + ints(estm),
+            "estj " + kv(estj),
+            "pos " + kv((o.operation_id, o.position_in_job - v.next_pos[o.job_id]) for o in un),
+            "durj " + ints(sum(o.duration for o in un if o.job_id == j) for j in range(len(I.jobs))),
+            "durm " + ints(sum(o.duration * o.machines.count(m) for o in un if m in o.machines) for m in range(M)),
+            "remj " + ints(sum(1 for o in un if o.job_id == j) for j in range(len(I.jobs))),
+            "remm " + ints(sum(o.machines.count(m) for o in un) for m in range(M)),
+            "sch " + ints(0 if o.operation_id in un_ids else 1 for o in ops),
+            "ogm " + ints(sum(1 for x in ongoing if x.machine_id == m) for m in range(M)),
+            "ogj " + ints(sum(1 for x in ongoing if x.operation.job_id == j) for j in range(len(I.jobs))),
+            "cop " + ints(1 if o.operation_id in completed else 0 for o in ops),
+            "cj " + ints(1 if job and not any(o.operation_id in un_ids for o in job) else 0 for job in I.jobs),
+            "cm " + ints(1 if any(m in o.machines for o in ops) and not any(m in o.machines for o in un) else 0
+                         for m in range(M)),
+            "deq " + " / ".join(ints(o.operation_id for o in job if o.operation_id in un_ids) for job in I.jobs),
+        ]
+        return " | ".join(parts)
+
     def cmd_fsnap(self, ts):
         self._sync_heap()
         ids = [str(self._fid(s)) for s in self.dispatcher.subscribers]
